@@ -80,11 +80,11 @@ def gen_guarded_config(rng):
     """Two transactions: A's contract starts with unconditional checks on the member at an offset / absolute index;
     B is configured either exactly there (must be cleared, by the statement) or somewhere else (oracle decides)."""
     dets = rng.sample(list(GUARDS), rng.randint(1, 3))
-    if rng.random() < 0.25:
+    if rng.random() < 0.3:
         # a logic-sig that validates ITS OWN fields through `gtxn i`, i being its configured absolute index
-        i = rng.choice([0, 1, 2, 3])
+        i = rng.choice([0, 0, 1, 2, 3])
         c = fragment.generate(rng, PROFILE)
-        if rng.random() < 0.5:
+        if rng.random() < 0.6:
             # ... on one accepting exit through `txn`, on the others through `gtxn i`
             prog = ([("txn", rng.choice(["Amount", "NumAppArgs", "AssetAmount"])), ("bnz", "VIA_GROUP_SLOT")]
                     + guard_prefix(rng, ("self",), dets) + [("int", 1), ("return",), ("label", "VIA_GROUP_SLOT")]
